@@ -12,12 +12,12 @@ import (
 func init() {
 	Register(&Property{
 		ID:    "C09",
-		Floor: 40,
-		Clauses: "Transport DATA frames are written only by writeRequestBody (and the server's writeData); every non-empty payload is remain[:k] with k the token count returned by a fresh awaitFlowControl call whose error was tested nil; " +
-			"awaitFlowControl: the count handed to cs.flow.take and returned is bounded, through guarded merges, by flow.available(), by maxBytes and by cc.maxFrameSize, is taken only under available()>0 with cc.mu held, and after cond.Wait the window is re-read before it is used; " +
-			"outflow: n written only by take/add, take panics above available() and decrements the stream and (when linked) the connection window by the same amount, available() is min(stream, conn), every client stream is linked to cc.flow and starts at the peer's initial window; " +
-			"wake-ups: cond.Broadcast after every successful flow.add in processWindowUpdate and after the SETTINGS_INITIAL_WINDOW_SIZE adjustment (delta = new − old, rejected above 2^31-1, new value stored); cc.maxFrameSize written only at set-up (16384) and from SETTINGS_MAX_FRAME_SIZE; flow fields touched under cc.mu.",
-		NotCovered: "liveness beyond the presence of the wake-up calls; the arithmetic of outflow.add overflow detection; that bytes in the slice are the request body (only its length/window relation is decided); races on cc.maxFrameSize between SETTINGS and a frame already cut; server-side DATA (C08).",
+		Floor: 37,
+		Clauses: "Transport DATA frames are written hcOnly by writeRequestBody (and the server's writeData); every non-empty payload is remain[:k] with k the token count returned by a fresh awaitFlowControl call whose error was tested nil; " +
+			"awaitFlowControl: the count handed to cs.flow.take and returned is bounded, through guarded merges, by flow.available(), by maxBytes and by cc.maxFrameSize, is taken hcOnly under available()>0 with cc.mu held, and after cond.Wait the window is re-read before it is used; " +
+			"outflow: n written hcOnly by take/add, take panics above available() and decrements the stream and (when linked) the connection window by the same amount, available() is min(stream, conn), every client stream is linked to cc.flow and starts at the peer's initial window; " +
+			"wake-ups: cond.Broadcast after every successful flow.add in processWindowUpdate and after the SETTINGS_INITIAL_WINDOW_SIZE adjustment (delta = new − old, rejected above 2^31-1, new value stored); cc.maxFrameSize written hcOnly at set-up (16384) and from SETTINGS_MAX_FRAME_SIZE; flow fields touched under cc.mu.",
+		NotCovered: "liveness beyond the presence of the wake-up calls; the arithmetic of outflow.add overflow detection; that bytes in the slice are the request body (hcOnly its length/window relation is decided); races on cc.maxFrameSize between SETTINGS and a frame already cut; server-side DATA (C08).",
 		Run:        c09,
 	})
 }
@@ -44,27 +44,27 @@ func c09(c *Ctx) {
 	c.Callers(wd, wrb, "(*http2.writeData).writeFrame")
 	c.Callers("(*http2.Framer).WriteDataPadded", wd)
 	c.Callers(afc, wrb)
-	payload := Calls(wd).Where("non-nil payload", func(in ssa.Instruction) bool { return Term(CallArg(in, 3)) != "nil" })
-	c09PayloadSliced(c, wrb, afc, payload)
-	c.NoPathWithout(wrb, payload, payload, Calls(afc)) // one awaitFlowControl per frame
-	c.Count(wrb, Calls(wd), 2, 2)                      // the reviewed sites: body chunk and empty END_STREAM
+	payload := Calls(wd).Where("non-nil payload", func(in ssa.Instruction) bool { return Term(HcCallArg(in, 3)) != "nil" })
+	hcC09PayloadSliced(c, wrb, afc, payload)
+	c.HcNoPathWithout(wrb, payload, payload, Calls(afc)) // one awaitFlowControl per frame
+	c.Count(wrb, Calls(wd), 2, 2)                        // the reviewed sites: body chunk and empty END_STREAM
 
 	// ---- awaitFlowControl --------------------------------------------------
-	tk := recvIs(Calls(oTake), 0, "http2.clientStream.flow")
+	tk := hcRecvIs(Calls(oTake), 0, "http2.clientStream.flow")
 	c.Count(afc, Calls(oTake), 1, 1)
 	c.Count(afc, tk, 1, 1)
 	c.Guard(afc, tk, "available(&$r.flow) > 0")
 	taken := func(fn *ssa.Function) []ssa.Value {
 		var out []ssa.Value
 		for _, in := range tk.F(c.P, fn) {
-			out = append(out, CallArg(in, 1))
+			out = append(out, HcCallArg(in, 1))
 		}
 		return out
 	}
-	c.ClampedBy(afc, "tokens taken", taken, nil, "available(&$r.flow)", "$0", "$r.cc.maxFrameSize")
-	c09ReturnsTaken(c, afc, tk)
+	c.HcClampedBy(afc, "tokens taken", taken, nil, "available(&$r.flow)", "$0", "$r.cc.maxFrameSize")
+	hcC09ReturnsTaken(c, afc, tk)
 	c.HeldAt(afc, Calls(oTake, oAvail), "$r.cc.mu", []string{lock}, []string{unlock})
-	c.NoPathWithout(afc, Calls(wait), tk, Calls(oAvail))
+	c.HcNoPathWithout(afc, Calls(wait), tk, Calls(oAvail))
 	c.Has(afc, Calls(wait).ArgIs(0, "$r.cc.cond"))
 
 	// ---- outflow -------------------------------------------------------------
@@ -72,7 +72,7 @@ func c09(c *Ctx) {
 	c.Writers("http2.outflow.n", oTake, oAdd)
 	c.Writers("http2.outflow.conn", setConn, "(*http2.serverConn).newStream")
 	c.Reject(oTake, stN, "$0 > available($r)")
-	c10Lin(c, oTake, "values stored to n", storedVals(c, stN), "$r.n-$0", "$r.conn.n-$0")
+	hcC10Lin(c, oTake, "values stored to n", hcStoredVals(c, stN), "$r.n-$0", "$r.conn.n-$0")
 	c.PassThroughIncl(oTake, c.Edge("$r.conn != nil"), stN.StoredIs("($r.conn.n-$0)"))
 	ret0 := func(fn *ssa.Function) []ssa.Value {
 		var out []ssa.Value
@@ -81,21 +81,21 @@ func c09(c *Ctx) {
 		}
 		return out
 	}
-	c.ClampedBy(oAvail, "result", ret0, nil, "$r.n")
-	c.ClampedBy(oAvail, "result", ret0, []string{"$r.conn != nil"}, "$r.conn.n")
+	c.HcClampedBy(oAvail, "result", ret0, nil, "$r.n")
+	c.HcClampedBy(oAvail, "result", ret0, []string{"$r.conn != nil"}, "$r.conn.n")
 	c.Callers(setConn, addStrm)
 	c.Has(addStrm, Calls(setConn).ArgIs(0, "&$0.flow").ArgIs(1, "&$r.flow"))
 	c.Has(addStrm, Calls(oAdd).ArgIs(0, "&$0.flow").ArgIs(1, "$r.initialWindowSize"))
 
 	// ---- the server extends the window ----------------------------------------
 	adds := Calls(oAdd)
-	c.PassThroughUnless(pwu, adds, Calls(bcast).ArgIs(0, "$r.cc.cond"), FailEdgeOf(adds))
+	c.HcPassThroughUnless(pwu, adds, Calls(bcast).ArgIs(0, "$r.cc.cond"), HcFailEdgeOf(adds))
 	c.Has(pwu, adds.ArgIs(1, "$0.Increment"))
 	c.HeldAt(pwu, adds, "$r.cc.mu", []string{lock}, []string{unlock})
 	c.HeldAt(psnw, Calls("(*http2.SettingsFrame).ForeachSetting"), "$r.cc.mu", []string{lock}, []string{unlock})
 	c.CallAfter(psnwEach, adds, bcast)
 	c.Reject(psnwEach, adds, "$0.Val > 2147483647")
-	c09Delta(c, psnwEach, adds)
+	hcC09Delta(c, psnwEach, adds)
 	stIWS := Stores("http2.ClientConn.initialWindowSize")
 	c.Guard(psnwEach, Union(adds, stIWS), "$0.ID == 4")
 	c.Has(psnwEach, stIWS.StoredIs("$0.Val"))
@@ -109,9 +109,9 @@ func c09(c *Ctx) {
 	c.Has("(*http2.Transport).newClientConn", stMFS.StoredIs("16384"))
 }
 
-// c09PayloadSliced: every non-nil DATA payload is x[:k] with k the count
+// hcC09PayloadSliced: every non-nil DATA payload is x[:k] with k the count
 // returned by the awaitFlowControl call, under "its error was nil".
-func c09PayloadSliced(c *Ctx, fnName, afc string, payload Sel) {
+func hcC09PayloadSliced(c *Ctx, fnName, afc string, payload Sel) {
 	rule := "payload-sliced-by-tokens"
 	construct := fnName + ": DATA payload is remain[:awaitFlowControl()] after err == nil"
 	fn := c.MustFn(fnName)
@@ -126,20 +126,20 @@ func c09PayloadSliced(c *Ctx, fnName, afc string, payload Sel) {
 	}
 	call := calls[0].(*ssa.Call)
 	for _, in := range sites {
-		sl, ok := CallArg(in, 3).(*ssa.Slice)
+		sl, ok := HcCallArg(in, 3).(*ssa.Slice)
 		if !ok {
-			c.Fail(rule, construct, InstrPos(in), "payload `"+Term(CallArg(in, 3))+"` is not a slice expression")
+			c.Fail(rule, construct, InstrPos(in), "payload `"+Term(HcCallArg(in, 3))+"` is not a slice expression")
 			return
 		}
 		if sl.Low != nil && Term(sl.Low) != "0" || sl.Max != nil {
 			c.Fail(rule, construct, InstrPos(in), "payload slice has a lower bound or capacity bound: "+Term(sl))
 			return
 		}
-		if sl.High == nil || !IsResultOf(sl.High, call, 0) {
+		if sl.High == nil || !HcIsResultOf(sl.High, call, 0) {
 			c.Fail(rule, construct, InstrPos(in), "upper bound of `"+Term(sl)+"` is not the awaitFlowControl count")
 			return
 		}
-		if !Dominated(call, in) {
+		if !HcDominated(call, in) {
 			c.Fail(rule, construct, InstrPos(in), "awaitFlowControl does not precede the write on every path")
 			return
 		}
@@ -149,7 +149,7 @@ func c09PayloadSliced(c *Ctx, fnName, afc string, payload Sel) {
 			if !ok {
 				continue
 			}
-			if (IsResultOf(bo.X, call, 1) || IsResultOf(bo.Y, call, 1)) && f.Atom.Kind == EQ {
+			if (HcIsResultOf(bo.X, call, 1) || HcIsResultOf(bo.Y, call, 1)) && f.Atom.Kind == EQ {
 				checked = true
 			}
 		}
@@ -161,9 +161,9 @@ func c09PayloadSliced(c *Ctx, fnName, afc string, payload Sel) {
 	c.OK(rule, construct, fmt.Sprintf("%d site(s)", len(sites)))
 }
 
-// c09ReturnsTaken: every return of awaitFlowControl yields 0 or exactly the
+// hcC09ReturnsTaken: every return of awaitFlowControl yields 0 or exactly the
 // amount passed to cs.flow.take earlier on the path.
-func c09ReturnsTaken(c *Ctx, fnName string, tk Sel) {
+func hcC09ReturnsTaken(c *Ctx, fnName string, tk Sel) {
 	rule := "returns-what-was-taken"
 	construct := fnName + ": returned count is 0 or the amount passed to cs.flow.take"
 	fn := c.MustFn(fnName)
@@ -175,9 +175,9 @@ func c09ReturnsTaken(c *Ctx, fnName string, tk Sel) {
 		c.Undecided(rule, construct, "expected one take")
 		return
 	}
-	amount := CallArg(takes[0], 1)
+	amount := HcCallArg(takes[0], 1)
 	n, nz := 0, 0
-	for _, in := range NormalReturns().F(c.P, fn) {
+	for _, in := range HcNormalReturns().F(c.P, fn) {
 		r := in.(*ssa.Return)
 		v := r.Results[0]
 		// named result kept in a slot: the value is the last store in the returning block
@@ -200,7 +200,7 @@ func c09ReturnsTaken(c *Ctx, fnName string, tk Sel) {
 			continue
 		}
 		nz++
-		if Unwrap(v) != Unwrap(amount) || !Dominated(takes[0], in) {
+		if HcUnwrap(v) != HcUnwrap(amount) || !HcDominated(takes[0], in) {
 			c.Fail(rule, construct, InstrPos(in), fmt.Sprintf("returns %s, took %s", Term(v), Term(amount)))
 			return
 		}
@@ -212,8 +212,8 @@ func c09ReturnsTaken(c *Ctx, fnName string, tk Sel) {
 	c.OK(rule, construct, fmt.Sprintf("%d return(s), %d with tokens", n, nz))
 }
 
-// c09Delta: SETTINGS_INITIAL_WINDOW_SIZE adds (new value − old initial window) to every stream.
-func c09Delta(c *Ctx, fnName string, adds Sel) {
+// hcC09Delta: SETTINGS_INITIAL_WINDOW_SIZE adds (new value − old initial window) to every stream.
+func hcC09Delta(c *Ctx, fnName string, adds Sel) {
 	rule := "linear-form"
 	construct := fnName + ": window adjustment = Setting.Val − cc.initialWindowSize"
 	fn := c.MustFn(fnName)
@@ -226,7 +226,7 @@ func c09Delta(c *Ctx, fnName string, adds Sel) {
 		return
 	}
 	for _, in := range sites {
-		l := Linearize(CallArg(in, 1))
+		l := Linearize(HcCallArg(in, 1))
 		ok := l.K == 0 && len(l.Coef) == 2 && l.Coef["$0.Val"] == 1
 		for t, k := range l.Coef {
 			if t != "$0.Val" && !(k == -1 && strings.HasSuffix(t, ".initialWindowSize")) {
